@@ -73,13 +73,19 @@ fn auth_handler(_: Request, _: Arc<St>, uid: String) -> Response {
     Response::new(StatusCode::OK, format!("uid={}", uid))
 }
 
+/// A handler that itself uses the provider, as a sign-out endpoint does.
+fn signout_handler(_: Request, state: Arc<St>, uid: String) -> Response {
+    state.auth_provider().invalidate_user_session(&uid);
+    Response::new(StatusCode::OK, format!("bye={}", uid))
+}
+
 impl Lab {
     fn new() -> Result<Lab, String> {
         let state_holder = St { p: Mutex::new(AuthProvider::new(Vec::new())) };
         let (tx, rx) = channel();
         // find a free port by binding to 0 first
         let port = hvcommon::net::free_port("127.0.0.1");
-        let app: App<St> = App::new_with_config(2, state_holder).with_auth_route("/auth", auth_handler).with_shutdown(rx);
+        let app: App<St> = App::new_with_config(2, state_holder).with_auth_route("/auth", auth_handler).with_auth_route("/signout", signout_handler).with_shutdown(rx);
         let state = app.get_state();
         std::thread::spawn(move || {
             let _ = app.run(("127.0.0.1", port));
@@ -95,13 +101,17 @@ impl Lab {
 
     /// one request to the authenticated route; returns (status, body)
     fn route(&self, cookie_header: Option<&str>) -> Result<(u16, String), String> {
+        self.route_at("/auth", cookie_header, Duration::from_secs(10))
+    }
+
+    fn route_at(&self, path: &str, cookie_header: Option<&str>, wait: Duration) -> Result<(u16, String), String> {
         let mut s = TcpStream::connect(("127.0.0.1", self.port)).map_err(|e| e.to_string())?;
         let req = match cookie_header {
-            Some(c) => format!("GET /auth HTTP/1.1\r\nHost: x\r\nCookie: {}\r\n\r\n", c),
-            None => "GET /auth HTTP/1.1\r\nHost: x\r\n\r\n".to_string(),
+            Some(c) => format!("GET {} HTTP/1.1\r\nHost: x\r\nCookie: {}\r\n\r\n", path, c),
+            None => format!("GET {} HTTP/1.1\r\nHost: x\r\n\r\n", path),
         };
         s.write_all(req.as_bytes()).map_err(|e| e.to_string())?;
-        let (buf, _) = read_to_eof(&mut s, Duration::from_secs(10));
+        let (buf, _) = read_to_eof(&mut s, wait);
         match parse_response(&buf, true) {
             Parse::Complete(m) => Ok((m.status(), String::from_utf8_lossy(&m.body).to_string())),
             Parse::Malformed(e) => Err(format!("malformed response: {}", e)),
@@ -407,6 +417,115 @@ fn run_sequence(r: &mut Report, lab: &Lab, seed: u64, seq: u64, all_tokens: &mut
     }
 }
 
+/// The handler of an authenticated route is called with the user id and the state, and may use the provider itself
+/// (a sign-out endpoint invalidates the caller's session): it is answered, and what it did to the session holds.
+/// Runs on an app of its own, so that a provider left locked cannot disturb the sequences.
+fn signout_scenario(r: &mut Report, seed: u64) {
+    let replay = vec!["c17".to_string(), "--seed".into(), seed.to_string()];
+    let lab = match Lab::new() {
+        Ok(l) => l,
+        Err(e) => {
+            r.harness_error(e);
+            return;
+        }
+    };
+    for round in 0..3 {
+        r.eval();
+        let (uid, token) = {
+            let mut p = lab.state.auth_provider();
+            let uid = match p.create_user(format!("pw{}", round)) {
+                Ok(u) => u,
+                Err(_) => return,
+            };
+            let t = match p.create_session(&uid) {
+                Ok(t) => t,
+                Err(_) => return,
+            };
+            (uid, t)
+        };
+        let cookie = format!("HumphreyToken={}", token);
+        match lab.route_at("/signout", Some(&cookie), Duration::from_secs(6)) {
+            Ok((200, body)) if body == format!("bye={}", uid) => {}
+            Ok((status, body)) => {
+                r.violation("C17/route-rejects-live-token", format!("a route whose handler uses the provider answered {} {:?} for a live token of {}", status, body, uid), J::s(&uid), replay.clone());
+                return;
+            }
+            Err(e) => {
+                r.violation("C17/route:handler-cannot-use-provider", format!("a request with a live token to an authenticated route whose handler locks the provider (sign-out) got no answer within 6 s ({}): the handler runs while the provider is still locked", e), J::s(&uid), replay.clone());
+                return;
+            }
+        }
+        // the provider must be usable afterwards (try_lock: a provider left locked or poisoned is the finding, not a hang of the harness)
+        let after = match lab.state.p.try_lock() {
+            Ok(p) => p.get_uid_by_token(&token).ok(),
+            Err(e) => {
+                r.violation("C17/route:handler-cannot-use-provider", format!("after a sign-out request the provider cannot be locked: {}", e), J::s(&uid), replay.clone());
+                return;
+            }
+        };
+        if after.is_some() {
+            r.violation("C17/dead-token-authenticates", format!("token of {} still authenticates after the sign-out handler invalidated the session", uid), J::s(&uid), replay.clone());
+            return;
+        }
+        match lab.route_at("/auth", Some(&cookie), Duration::from_secs(6)) {
+            Ok((401, _)) => r.count("signouts_through_a_route_handler_effective", 1),
+            Ok((status, body)) => {
+                r.violation("C17/route-accepts-dead-token", format!("authenticated route answered {} {:?} for a token invalidated by a sign-out handler", status, body), J::s(&uid), replay.clone());
+                return;
+            }
+            Err(e) => {
+                r.inconclusive(format!("request after sign-out failed: {}", e));
+                return;
+            }
+        }
+    }
+}
+
+/// "Tokens are 256-bit random values": a statistical monitor over all tokens one shard saw. Every one of the 32 byte
+/// positions must show the variety 8 random bits give (the expected number of distinct values among N draws from 256
+/// is 256(1-e^(-N/256)); 80 % of that is more than 7 standard deviations away for N >= 300), and every one of the
+/// 256 bit positions must be set in 25..75 % of the tokens (8 standard deviations at N = 300).
+fn token_randomness(r: &mut Report, tokens: &HashSet<String>, seed: u64) {
+    let n = tokens.len();
+    if n < 300 {
+        return;
+    }
+    let mut seen = vec![[false; 256]; 32];
+    let mut ones = vec![0usize; 256];
+    for t in tokens {
+        let b = t.as_bytes();
+        if b.len() != 64 {
+            continue;
+        }
+        for p in 0..32 {
+            if let Ok(v) = u8::from_str_radix(&t[2 * p..2 * p + 2], 16) {
+                seen[p][v as usize] = true;
+                for bit in 0..8 {
+                    if v >> bit & 1 == 1 {
+                        ones[p * 8 + bit] += 1;
+                    }
+                }
+            }
+        }
+    }
+    r.eval();
+    let expect = 256.0 * (1.0 - (-(n as f64) / 256.0).exp());
+    let min_distinct = seen.iter().map(|s| s.iter().filter(|x| **x).count()).min().unwrap_or(0);
+    let poor_byte = seen.iter().position(|s| (s.iter().filter(|x| **x).count() as f64) < 0.8 * expect);
+    let poor_bit = ones.iter().position(|c| *c * 4 < n || *c * 4 > 3 * n);
+    r.max("token_byte_positions_min_distinct_values", min_distinct as u64);
+    r.count("tokens_in_randomness_monitor", n as u64);
+    if poor_byte.is_some() || poor_bit.is_some() {
+        let what = match (poor_byte, poor_bit) {
+            (Some(p), _) => format!("byte {} of the token took only {} distinct values over {} tokens (8 random bits give about {:.0})", p, seen[p].iter().filter(|x| **x).count(), n, expect),
+            (_, Some(b)) => format!("bit {} of the token was set in {} of {} tokens", b, ones[b], n),
+            _ => unreachable!(),
+        };
+        let sample: Vec<String> = tokens.iter().take(4).cloned().collect();
+        r.violation("C17/token-not-256-bit-random", what, J::obj(vec![("tokens_observed", J::u(n as u64)), ("sample", J::arr_s(&sample))]), vec!["c17".to_string(), "--seed".into(), seed.to_string()]);
+    }
+}
+
 pub fn main(args: &Args) {
     let out = args.get("out").expect("--out");
     let seed = args.seed();
@@ -433,7 +552,37 @@ pub fn main(args: &Args) {
                 }
             }
         }
+        if one.is_none() && shard % 4 == 0 {
+            signout_scenario(&mut r, seed);
+        }
+        if one.is_none() {
+            // a burst of sessions for one user (each replaces the one before), so that every shard has a population of
+            // tokens large enough for the randomness monitor; they take part in the uniqueness check as well
+            let mut p: AuthProvider<Vec<User>> = AuthProvider::new(Vec::new());
+            if let Ok(uid) = p.create_user("burst") {
+                for k in 0..320 {
+                    p.invalidate_user_session(&uid);
+                    match p.create_session(&uid) {
+                        Ok(t) => {
+                            if !is_token_shape(&t) {
+                                r.violation("C17/token-shape", format!("token {:?} is not 64 lowercase hex characters", t), J::s(&t), vec!["c17".to_string(), "--seed".into(), seed.to_string()]);
+                                break;
+                            }
+                            if !all_tokens.insert(t.clone()) {
+                                r.violation("C17/token-repeated", format!("token {} was issued twice (session burst, session #{})", t, k), J::s(&t), vec!["c17".to_string(), "--seed".into(), seed.to_string()]);
+                                break;
+                            }
+                        }
+                        Err(e) => {
+                            r.inconclusive(format!("session burst: create_session failed after invalidate_user_session: {:?}", e));
+                            break;
+                        }
+                    }
+                }
+            }
+        }
         r.count("distinct_tokens_issued", all_tokens.len() as u64);
+        token_randomness(&mut r, &all_tokens, seed);
         r
     });
     let mut total = Report::merge_all(reports);
